@@ -13,7 +13,12 @@ RULE = ("every case runs in a forked child under ASan/UBSan/_GLIBCXX_ASSERTIONS 
         "section size modulo 2^64, height -2^31 with every pixel size it can match, tileset pixel heights >= 2^31 with matching "
         "section lengths, attacker-sized pixel sections; random byte flips / insertions / deletions; all of them through both "
         "ReadIndexed and the format-detecting ReadTileset")
-PROVED = "see lean/Op2Proofs/Props/C11_Bmp.lean and notes/bmp.md"
+PROVED = ("for ALL byte strings: C11_no_fault_load_bmp / _tileset (loading never reaches std::abs(INT32_MIN), a negation of INT32_MIN, an "
+          "out-of-vector row access or an over-wide shift: result is an object or an ordinary error); C11_no_fault_use_bmp / _tileset (on every "
+          "returned object none of Validate, both Verify*, WriteIndexed to stream and to file, AbsoluteHeight, InvertScanLines, ValidateTileset, "
+          "WriteCustomTileset reaches one); C11_use_closed (InvertScanLines / SwapRedAndBlue return objects with the same invariants, so every "
+          "sequence of operations is safe); C11_prefix_strict_bmp / _tileset (every proper prefix cutting into the consumed bytes - for a file "
+          "without trailing bytes: every proper prefix - is refused with an ordinary error, in both formats); termination by totality of the model")
 PARTIAL = ("memory safety of the C++ below the level of the model's checked primitives (the primitives sit where the code has raw "
            "pointer / iterator / signed operations; that placement is tied to the code by the sanitizer-instrumented run only); "
            "allocation failure is modelled as the ordinary error it is under the harness cap")
